@@ -377,6 +377,9 @@ func init() {
 		Variants:    []string{"trimpath"},
 		Jobs: func(tier string, seed int64) []Job {
 			js := chunk("paths", "prod", pick(tier, 8000, 400000), pick(tier, 500, 12500), Job{Timeout: 30 * time.Minute})
+			// histories that empty the plain table (and put the start-up entries back afterwards, as the harness knows them)
+			// run in processes of their own: everywhere else the table the LIBRARY built at start-up stays in place
+			js = append(js, chunk("paths", "prod", pick(tier, 2000, 60000), pick(tier, 500, 10000), Job{Args: []string{"-x", "emptying=1"}, Timeout: 30 * time.Minute})...)
 			// records from below //line directives with absolute file names (generated code), in the ordinary build and in a
 			// -trimpath build of the workload
 			js = append(js, Job{Sub: "generated", Mode: "prod", From: 0, To: 54, Timeout: 10 * time.Minute},
